@@ -138,11 +138,17 @@ func (r *reducer) try(apply, undo func()) bool {
 
 func (r *reducer) reduceText(src string) string {
 	join := func(parts []string) string { return strings.Join(parts, "") }
-	lines := strings.SplitAfter(src, "\n")
-	lines = ddmin(lines, func(p []string) bool { return r.test(join(p)) })
-	toks := tokenize(join(lines))
-	toks = ddmin(toks, func(p []string) bool { return r.test(join(p)) })
-	return join(toks)
+	for i := 0; i < 6; i++ { // to a fixed point: the result must reduce to itself
+		before := src
+		lines := strings.SplitAfter(src, "\n")
+		lines = ddmin(lines, func(p []string) bool { return r.test(join(p)) })
+		toks := shrinkTokens(tokenizeFine(join(lines)), func(p []string) bool { return r.test(join(p)) })
+		src = join(toks)
+		if src == before {
+			break
+		}
+	}
+	return src
 }
 
 // ddmin removes chunks of decreasing size (n/2, n/4, … 1) while keep(rest)
